@@ -355,3 +355,34 @@ def dotted_name(node):
         parts.append(node.id)
         return ".".join(reversed(parts))
     return None
+
+
+def cnorm(node):
+    """norm() with the bound variables of comprehensions and lambdas renamed canonically (_c0, _c1, ...), so that
+    `[f(p) for p in xs]` and `[f(col) for col in xs]` have the same text."""
+    from .normalise import clone
+    tree = clone(node)
+    counter = [0]
+
+    def rename_in(n, mapping):
+        for x in ast.walk(n):
+            if isinstance(x, ast.Name) and x.id in mapping:
+                x.id = mapping[x.id]
+            elif isinstance(x, ast.arg) and x.arg in mapping:
+                x.arg = mapping[x.arg]
+    for n in list(ast.walk(tree)):
+        if isinstance(n, (ast.ListComp, ast.SetComp, ast.GeneratorExp, ast.DictComp)):
+            mapping = {}
+            for g in n.generators:
+                for t in ast.walk(g.target):
+                    if isinstance(t, ast.Name) and t.id not in mapping:
+                        mapping[t.id] = f"_c{counter[0]}"
+                        counter[0] += 1
+            rename_in(n, mapping)
+        elif isinstance(n, ast.Lambda):
+            mapping = {}
+            for a in n.args.args:
+                mapping[a.arg] = f"_c{counter[0]}"
+                counter[0] += 1
+            rename_in(n, mapping)
+    return norm(tree)
